@@ -191,7 +191,14 @@ impl UpgradeBinder {
             Some(s) if s == "migration successful" => "str".into(),
             Some(s) => format!("other:{s}"),
         };
-        json!({"version": version.map(|s| sstr_to_string(&s)).unwrap_or("none".into()), "data": data,
+        // the holder of the contract's OTHER role (gateway operator, gas collector), while the native code runs:
+        // upgrade and migration must leave it alone
+        let aux: String = match self.kind.as_str() {
+            "gateway" => self.cx.query::<Address>(&t, "operator", SVec::new(&env)).map(|a| self.cx.name_of(&a)).unwrap_or("n/a".into()),
+            "gas" => self.cx.query::<Address>(&t, "gas_collector", SVec::new(&env)).map(|a| self.cx.name_of(&a)).unwrap_or("n/a".into()),
+            _ => "n/a".into(),
+        };
+        json!({"aux": aux, "version": version.map(|s| sstr_to_string(&s)).unwrap_or("none".into()), "data": data,
                "owner": owner.map(|a| self.cx.name_of(&a)).unwrap_or("none".into())})
     }
 }
